@@ -75,8 +75,7 @@ type drv struct {
 	crashes int
 	hangs   int
 	maxUs   int64
-	base    map[string]bool
-	also    map[string]int
+	dd      *mimegen.Dedup
 	slowest string
 }
 
@@ -98,39 +97,18 @@ func (d *drv) replayObj(in *input) interface{} {
 	return o
 }
 
-// nonDefault names the shape dimensions of a class that differ from the default shape.
-func nonDefault(s mimegen.Shape) string {
-	var out []string
-	if s.Hdr != "plain" {
-		out = append(out, "hdr="+s.Hdr)
-	}
-	if s.Le != "crlf" {
-		out = append(out, "le="+s.Le)
-	}
-	if s.Bnd != "normal" {
-		out = append(out, "bnd="+s.Bnd)
-	}
-	if s.Dmg != "none" {
-		out = append(out, "dmg="+s.Dmg)
-	}
-	return strings.Join(out, ",")
-}
+func nonDefault(s mimegen.Shape) string { return strings.Join(s.Dims(), ",") }
 
 // violate reports a failure. Classes with the default shape run first; a failure signature seen there is
 // not reported again for the other shapes of the same tree context (same cause); a signature that only
 // appears under a non-default shape carries the shape in its key.
 func (d *drv) violate(in *input, key, detail string) {
 	if in.Case != nil {
-		nd := nonDefault(in.Case.Shape)
-		switch {
-		case nd == "":
-			d.base[key] = true
-		case d.base[key]:
-			d.also[key]++
+		k, report := d.dd.Key(in.Case.Shape.Dims(), key)
+		if !report {
 			return
-		default:
-			key = nd + ":" + key
 		}
+		key = k
 	}
 	d.r.Violate(key, fmt.Sprintf("%s [%s]\n%s\nmessage: %s", in.Class, in.Desc, detail, quoteTrim(in.Msg, 1500)), d.replayObj(in))
 }
@@ -644,9 +622,9 @@ func loadCases(r *ev.Run, tier string) ([]*tcase, bool) {
 	r.Set("tlc_wall_s", wall)
 	r.Set("states_per_cfg", perCfg)
 	sort.SliceStable(cases, func(i, j int) bool {
-		di, dj := nonDefault(cases[i].Shape) == "", nonDefault(cases[j].Shape) == ""
+		di, dj := len(cases[i].Shape.Dims()), len(cases[j].Shape.Dims())
 		if di != dj {
-			return di
+			return di < dj
 		}
 		return cases[i].sig() < cases[j].sig()
 	})
@@ -660,7 +638,7 @@ func (d *drv) runCase(c *tcase, tag string) {
 		in.Paths = append(in.Paths, p.Path)
 	}
 	in.Paths = append(in.Paths, []int{7}, []int{1, 7, 1})
-	d.r.Eval("class "+c.sig(), true)
+	d.r.Eval(mimegen.Hash("class "+c.sig()), true)
 	res := d.exec(in)
 	if res != nil && c.Exp.Strong {
 		d.strong(in, res)
@@ -669,7 +647,7 @@ func (d *drv) runCase(c *tcase, tag string) {
 
 func run(r *ev.Run, tier, replay string) {
 	seed := ev.Seed()
-	d := &drv{r: r, base: map[string]bool{}, also: map[string]int{}}
+	d := &drv{r: r, dd: mimegen.NewDedup()}
 	defer func() {
 		if d.w != nil {
 			d.w.kill()
@@ -713,7 +691,7 @@ func run(r *ev.Run, tier, replay string) {
 	instClasses := map[string]int{}
 	for _, in := range insts {
 		instClasses[in.Class]++
-		d.r.Eval(fmt.Sprintf("instance %s %s", in.Class, in.Desc), true)
+		d.r.Eval(mimegen.Hash(fmt.Sprintf("instance %s %s", in.Class, in.Desc)), true)
 		d.exec(in)
 		if d.crashes+d.hangs > 40 {
 			r.Machinery("more than 40 crashes/hangs of the worker, giving up the rest of the run")
@@ -727,7 +705,7 @@ func run(r *ev.Run, tier, replay string) {
 	r.Set("class_dimensions", dims)
 	r.Set("instances_tried", len(insts))
 	r.Set("instance_classes", instClasses)
-	r.Set("failure_signatures_repeated_under_other_shapes", d.also)
+	r.Set("failure_signatures_repeated_under_other_shapes", d.dd.Also)
 	r.Set("worker_crashes", d.crashes)
 	r.Set("worker_hangs", d.hangs)
 	r.Set("slowest_parse_ms", float64(d.maxUs)/1000)
